@@ -31,6 +31,8 @@ var Properties = map[string]PropDef{
 			{Name: "types.ZZC08Oracle", Quick: map[string]int{"K": 1, "D": 1}, Thorough: map[string]int{"K": 2, "D": 1}, Depth: 200},
 			{Name: "types.ZZC08Oracle", Quick: map[string]int{"K": 0, "D": 1}, Thorough: map[string]int{"K": 1, "D": 2}, Depth: 200},
 			{Name: "types.ZZC08Laws", Quick: map[string]int{"K": 2, "D": 0}, Thorough: map[string]int{"K": 2, "D": 1}, Depth: 200},
+			{Name: "types.ZZC08Cost", Quick: map[string]int{"N": 4}, Thorough: map[string]int{"N": 6}, Depth: 300, Note: "calls of innerEqualType on two equal cycles of N two-branch choices; natively the family is scaled to 64 definitions with a 3 s deadline"},
+			{Name: "types.ZZC08Nesting", Quick: map[string]int{"MENU": 1}, Depth: 200, Note: "one name compared with a left- and a right-nested binary type inside one call (memo keys must keep them apart)"},
 			{Name: "types.ZZC08Oracle", Quick: map[string]int{"K": 2, "D": 1, "DS": 1, "DT": 3, "MENU": 1}, Depth: 200, ThoroughOnly: true, Note: "left/right nested products against names: the printed memo key must keep them apart"},
 		},
 	},
@@ -122,6 +124,7 @@ var Properties = map[string]PropDef{
 		Harnesses: []HarnessDef{
 			{Name: "process.ZZC14Subst"},
 			{Name: "process.ZZC14FreeNames"},
+			{Name: "process.ZZC14FreeNamesRuntime"},
 			{Name: "process.ZZC14Copy"},
 			{Name: "process.ZZC14DeclOrder", Quick: map[string]int{"K": 1, "D": 1, "G": 0, "NP": 1, "PD": 0}},
 		},
@@ -152,7 +155,7 @@ var Properties = map[string]PropDef{
 		Bounds:      "one transition step of one process in polarised asynchronous mode: 14 form/side combinations (send, receive, select, case with 2 branches, close, wait, cast, shift, cut, print) x every incoming data rule (SND..BRA) x labels over {l,m,n}; the duplication step for 2 providers over 3 body kinds; positive forward relaying each of SND/CLS/SEL/CST, negative forward, split and drop; the call step for 4 provider-passing conventions",
 		Assumptions: []string{"channels are FIFO queues of the capacity CreateFreshChannel asks for; a spawned goroutine runs after the step (run-to-completion)", "continuations are probes that record the process state they are resumed in and the substitutions applied to them", "context.Background() stands for the run's context (cancellation is outside the step claims); heartbeat channel given capacity 4096; logging off"},
 		Outside:     "PARTIAL: whole runs, orders across processes, causal order of prints, recursion; control messages (FWD, GC) arriving at receivers, droppable positive forwards, the non-polarised transition functions",
-		Harnesses:   []HarnessDef{{Name: "process.ZZC04Step"}, {Name: "process.ZZC04Dup"}, {Name: "process.ZZC04Forward"}, {Name: "process.ZZC13CallCopies"}, runMenuHarness()},
+		Harnesses:   []HarnessDef{{Name: "process.ZZC04Step"}, {Name: "process.ZZC04Dup"}, {Name: "process.ZZC04Forward"}, {Name: "process.ZZC04Control"}, {Name: "process.ZZC13CallCopies"}, runMenuHarness()},
 	},
 	"C01": {
 		ID: "C01", AssertPrefix: "C01.",
@@ -173,7 +176,7 @@ var Properties = map[string]PropDef{
 		Bounds:      runBounds,
 		Assumptions: runAssumptions,
 		Outside:     "PARTIAL: programs outside the menu, runs that do not terminate, the heartbeat timer, GOMAXPROCS (true parallelism is covered only through the interleaving semantics), the non-polarised mode (the property speaks about the polarised modes)",
-		Harnesses:   []HarnessDef{runMenuHarness()},
+		Harnesses:   []HarnessDef{{Name: "process.ZZC04Control"}, runMenuHarness()},
 	},
 	"C03": {
 		ID: "C03", AssertPrefix: "C03.",
@@ -275,6 +278,7 @@ func c09Harnesses() []HarnessDef {
 		hs = append(hs, h)
 	}
 	hs = append(hs, HarnessDef{Name: "process.ZZC09Worker"})
+	hs = append(hs, HarnessDef{Name: "types.ZZC08Cost", Quick: map[string]int{"N": 4}, Thorough: map[string]int{"N": 6}, Depth: 300})
 	hs = append(hs, HarnessDef{Name: "zzpub.ZZC09Program", Depth: 300, Loop: 2000})
 	hs = append(hs, HarnessDef{Name: "types.ZZC09Accepted", Quick: map[string]int{"K": 2, "D": 1}, Depth: 200})
 	hs = append(hs, HarnessDef{Name: "types.ZZC09Accepted", Quick: map[string]int{"K": 1, "D": 2}, Depth: 200})
